@@ -224,6 +224,50 @@ def c16_scripts(rng, tier, model_prefixes):
         sig(n, rng)
         n.pop("probe", None)
         S.append(build(n, ops0[1:], 4))
+    # partial calls around swings of the input need (ratio up/down on the fixed-output types, chunk size
+    # down/up on the sinc types): whatever a wrapper keeps between partial calls (a padded scratch, a fill
+    # counter) is sized for the previous need (seeded change C16d)
+    for _ in range(n_gen):
+        for kind in ("SincFixedOut", "FastFixedOut", "SincFixedIn", "SincFixedOut"):
+            n = gen.new_op(rng, kind, small=False)
+            n["maxrel"] = gen.rj(Fraction(4)) if kind.endswith("Out") else gen.rj(Fraction(11, 10))
+            n["r"] = gen.rj(rng.choice([Fraction(1), Fraction(1, 2), Fraction(3, 2)]))
+            n["chunk"] = rng.choice([64, 256, 1024])
+            if kind.startswith("Sinc") and n.get("F") == 1:
+                n["F"] = 2
+            sig(n, rng)
+            n.pop("probe", None)
+            n["ch"] = rng.choice([1, 2])
+            orig = gen.frac_of(n["r"])
+            ops = [with_id(n, 0), with_id(n, 1), {"op": "note", "twin": "full", "a": 0, "b": 1}]
+
+            def both(o):
+                return [with_id(o, 0), with_id(o, 1)]
+
+            def part(f):
+                via = rng.choice(["into", "alloc", "vec_into"])
+                if f is None:
+                    return [{"op": "partial", "id": 0, "k": -1, "via": via}, {"op": "process", "id": 1, "zero_from": 0}]
+                return [{"op": "partial", "id": 0, "kf": f, "via": via}, {"op": "process", "id": 1, "zf": f}]
+
+            for _k in range(rng.randrange(1, 4)):
+                ops += both({"op": "process"})
+            for _round in range(rng.randrange(1, 4)):
+                ops += part(rng.choice([[99, 100], [1, 1], [2, 3]]))
+                if kind.endswith("Out") and rng.random() < 0.7:
+                    ops += both({"op": "set_ratio", "x": gen.rj(orig * rng.choice([2, 3, 4])), "ramp": rng.random() < 0.5,
+                                 "rel": False})
+                    back = {"op": "set_ratio", "x": gen.rj(orig / rng.choice([1, 2])), "ramp": rng.random() < 0.5, "rel": False}
+                elif kind.startswith("Sinc"):
+                    ops += both({"op": "set_chunk", "n": rng.choice([1, 7, max(1, n["chunk"] // 8)])})
+                    back = {"op": "set_chunk", "n": n["chunk"]}
+                else:
+                    back = {"op": "getters"}
+                ops += part(rng.choice([None, [1, 2], [1, 100]]))
+                ops += both(back)
+                for _k in range(rng.randrange(1, 3)):
+                    ops += part(None)
+            S.append(ops)
     # flushing: constant ratio, some audio, then None calls until the tail must be out (C16_Flush);
     # the core twin processes explicit zero chunks
     for _ in range(n_gen):
